@@ -1,6 +1,7 @@
 package main
 
 import (
+	"go/token"
 	"sort"
 	"strings"
 
@@ -387,6 +388,7 @@ func rulesC13(c *Ctx) {
 		"C13 (sync applies exactly the announced transition) — decided: in commitWithHooks the pre-commit hook is called (when non-nil) and its success edge taken before PutWriteLog/RemoveNodes/batch.Commit on every path; CommitKnown passes a hook whose only success path is equality of the computed root hash with the expected one; RootCache.Apply is the only caller of ApplyWriteLog in the storage layer, commits the tree it applied the log to only through CommitKnown(expectedNewRoot) and returns success only through HasRoot(expectedNewRoot) or CommitKnown's success edge; the mismatch sentinel is translated, not swallowed.",
 		"NOT decided: that the write log served by the database for two consecutive roots reproduces the second root (coalescing, revival from the DB) — value-dependent.")
 	c13Hops(c)
+	c13Resolvable(c)
 	const rule = "C13.commitknown"
 	const cwh = "storage/mkvs.(*tree).commitWithHooks"
 	if fn := c.needFn(rule, cwh); fn != nil {
@@ -706,4 +708,53 @@ func c13Hops(c *Ctx) {
 	ascending := inc && !dec && startsAtZero
 	ok := (appendsAtEnd && descending) || (prepends && ascending)
 	c.Check(ok, rule, fname(getter)+":hops replayed from the start root towards the end root", c.P.Pos(getter.Pos()), "hop keys are collected end→start and replayed in the opposite order", "the hops of a multi-hop write log are replayed in the order they were discovered (end root first): a key written in both hops ends with the older value and the served log does not reproduce the end root")
+}
+
+// c13Resolvable: pathbadger's internal write log refers to inserted leaves by
+// their database key; a leaf that has none (embedded in an internal node and
+// loaded from the database: "invalid" pointer) must not be recorded that way,
+// or the log cannot be served (F14).
+func c13Resolvable(c *Ctx) {
+	const rule = "C13.resolve"
+	fn := c.needFn(rule, "storage/mkvs/db/pathbadger.makeInternalWriteLog")
+	if fn == nil {
+		return
+	}
+	keys := CallsTo(fn, "iptr.dbKey()", "storage/mkvs/db/pathbadger.(*dbPtr).dbKey", "")
+	c.GuardedByAny(rule, fn, "!iptr.isInvalid()", []string{`^!storage/mkvs/db/pathbadger\.\(\*dbPtr\)\.isInvalid\(.*InsertedNode\.DBInternal\.`}, keys, "a write log entry may refer to a leaf by its database key only if the leaf has one")
+	// and the reader knows every entry kind the writer produces
+	wk := map[string]bool{}
+	for _, b := range fn.Blocks {
+		for _, in := range b.Instrs {
+			if st, ok := in.(*ssa.Store); ok {
+				if ia, ok := st.Addr.(*ssa.IndexAddr); ok {
+					if k, isK := constInt(st.Val); isK && strings.Contains(typeStr(ia.X.Type()), "[1]byte") {
+						wk[itoa(int(k))] = true
+					}
+				}
+			}
+		}
+	}
+	rd := c.needFn(rule, "storage/mkvs/db/pathbadger.(*badgerNodeDB).GetWriteLog")
+	if rd == nil {
+		return
+	}
+	rk := map[string]bool{}
+	for _, b := range rd.Blocks {
+		if iff := lastIf(b); iff != nil {
+			if bo, ok := iff.Cond.(*ssa.BinOp); ok && bo.Op == token.EQL {
+				if k, isK := constInt(bo.Y); isK && strings.HasSuffix(vstr(bo.X), "[0]") {
+					rk[itoa(int(k))] = true
+				}
+			}
+		}
+	}
+	var missing []string
+	for k := range wk {
+		if !rk[k] {
+			missing = append(missing, k)
+		}
+	}
+	sort.Strings(missing)
+	c.Check(len(wk) >= 2 && len(missing) == 0, rule, "pathbadger write log entry kinds: written ⊆ read", c.P.Pos(rd.Pos()), "every entry kind produced by makeInternalWriteLog {"+joinKeys(wk)+"} has an arm in GetWriteLog", "GetWriteLog has no arm for entry kind(s) "+strings.Join(missing, ", ")+" that makeInternalWriteLog produces")
 }
